@@ -67,6 +67,23 @@ def gen_iceagent():
     if not mm:
         raise Untranslatable("handle_stun_request: latching retarget condition has an unexpected shape")
     m.raw("Definition latch_retarget_same_port_other_ip : bool := true.", "handle_stun_request latching retarget condition", ICE)
+    # ---- complete_controlled_inbound_tcp_nomination: runs for every request on a TCP stream, controlled side only,
+    #      once; and the USE-CANDIDATE branch returns early for TCP streams
+    _p, _r, hbody = find_fn(src, "handle_stun_request")
+    if not re.search(r"complete_controlled_inbound_tcp_nomination\(sender,\s*addr,\s*inner\.clone\(\)\)\.await;\s*if\s+msg\.use_candidate", hbody):
+        raise Untranslatable("handle_stun_request: TCP nomination is not called unconditionally before the USE-CANDIDATE branch")
+    if not re.search(r"if\s+matches!\(sender,\s*IceSocketWrapper::TcpStream\(_,\s*_,\s*_\)\)\s*\{\s*return;\s*\}", hbody):
+        raise Untranslatable("handle_stun_request: USE-CANDIDATE branch no longer returns early for TCP streams")
+    _p, _r, tbody = find_fn(src, "complete_controlled_inbound_tcp_nomination")
+    if not re.search(r"^\{\s*if\s+\*inner\.role\.lock\(\)\s*!=\s*IceRole::Controlled\s*\{\s*return;\s*\}\s*let\s+IceSocketWrapper::TcpStream\(read,\s*_,\s*_\)\s*=\s*sender\s+else\s*\{\s*return;\s*\};\s*if\s+inner\.nomination_complete\.borrow\(\)\.is_some\(\)\s*\{", tbody):
+        raise Untranslatable("complete_controlled_inbound_tcp_nomination: guards (controlled, TCP stream, not yet nominated) have an unexpected shape")
+    if "pending_transactions" in tbody:
+        raise Untranslatable("complete_controlled_inbound_tcp_nomination touches pending_transactions")
+    m2 = re.search(r"IceCandidate::priority_for_tcp\(IceCandidateType::PeerReflexive,\s*(\d+),\s*TcpType::Passive\)", hbody)
+    if not m2:
+        raise Untranslatable("handle_stun_request: TCP peer-reflexive priority has an unexpected shape")
+    m.raw("Definition prflx_tcp_component : Z := %s." % m2.group(1), "handle_stun_request TCP peer-reflexive component", ICE)
+
     # ---- shared_udp.rs dispatch: demux by the ufrag in USERNAME, else by recorded source address
     msrc = strip_comments(read(MUX))
     _p, _r, body = find_fn(msrc, "dispatch")
